@@ -6,8 +6,10 @@
    Layers: L0  (constants, variables, globals, lambda with fixed arity and flat closures, application,
                 if, let, begin, integer/boolean primitives; calls compiled to FUNC)          PROVED
            tail (same fragment, calls in tail position compiled to TAILCALL, frame reuse)      PROVED
+           rest (lambda with a rest parameter: arity check n >= |ps|, surplus operands collected into a list
+                 bound to one more slot; covered by L0 and tail — they quantify over all expressions —
+                 and singled out in C01_simulation_rest)                                        PROVED
            set  (set! / boxes for mutated captured variables)                                  NOT PROVED (no theorem stated)
-           rest (rest arguments)                                                               NOT PROVED (no theorem stated)
    Not covered by any theorem: MOVEREADLOCAL (last-usage moves), the CALLGLOBAL peephole, the
    source-to-source passes in front of code generation; these are tied by the differential check only. *)
 From Coq Require Import String.
@@ -96,28 +98,63 @@ Theorem C01_dead_code_silent : forall G n r c t e1 e2 v,
   ceval G n r c = Some (Val v) ->
   (truthy v = true -> ceval G (S n) r (EIf c t e1) = ceval G (S n) r (EIf c t e2)) /\
   (truthy v = false -> ceval G (S n) r (EIf c e1 t) = ceval G (S n) r (EIf c e2 t)) /\
-  (forall ps body, ceval G (S n) r (ELam ps body) = Some (Val (VClo ps body r))).
+  (forall ps rest body, ceval G (S n) r (ELam ps rest body) = Some (Val (VClo ps rest body r))).
 Proof. exact dead_code_silent. Qed.
 
-(* the callee's parameters are bound to exactly the evaluated operands *)
-Theorem C01_call_args_exact : forall G n r f args ps body r' vs,
+(* the callee's parameters are bound to exactly the evaluated operands (a rest parameter to the list of
+   the surplus ones) *)
+Theorem C01_call_args_exact : forall G n r f args ps rest body r' vs,
   evals (ceval G n r) args = Some (inl vs) ->
-  ceval G n r f = Some (Val (VClo ps body r')) ->
-  (length ps = length vs -> ceval G (S n) r (EApp f args) = ceval G n (bind ps vs r') body) /\
-  (length ps <> length vs -> ceval G (S n) r (EApp f args) = Some (Err EArity)) /\
-  (NoDup ps -> length ps = length vs -> forall i x v, nth_error ps i = Some x -> nth_error vs i = Some v ->
-     Core.lookup x (bind ps vs r') = Some v) /\
+  ceval G n r f = Some (Val (VClo ps rest body r')) ->
+  ceval G (S n) r (EApp f args) =
+    match call_args ps rest vs with
+    | Some (xs, ws) => ceval G n (bind xs ws r') body
+    | None => Some (Err EArity)
+    end /\
+  (rest = None -> length ps = length vs -> call_args ps rest vs = Some (ps, vs)) /\
+  (rest = None -> length ps <> length vs -> call_args ps rest vs = None) /\
+  (forall r0, rest = Some r0 -> length ps <= length vs ->
+     call_args ps rest vs = Some (ps ++ [r0], firstn (length ps) vs ++ [VList (skipn (length ps) vs)])) /\
+  (forall xs ws, call_args ps rest vs = Some (xs, ws) -> NoDup xs ->
+     forall i x v, nth_error xs i = Some x -> nth_error ws i = Some v -> Core.lookup x (bind xs ws r') = Some v) /\
   length vs = length args.
 Proof. exact call_args_exact. Qed.
+
+(* Rest parameters: a call (FUNC) of a variadic closure related to (lambda (ps . r) body) with at least |ps|
+   related operands enters the body with the frame slots = the first |ps| operands followed by the LIST of
+   the remaining ones, related to the source binding of ps ++ [r]; fewer operands is the arity error on
+   both sides (C01_simulation_L0 / _tail cover whole evaluations through such calls, tail calls included). *)
+Theorem C01_simulation_rest : forall limit tco MG ps r body r' clo vs mvs xs ws C pcC st0 fs,
+  vrel tco (VClo ps (Some r) body r') clo ->
+  call_args ps (Some r) vs = Some (xs, ws) -> Forall2 (vrel tco) vs mvs ->
+  nth_error C pcC = Some (FUNC (length mvs)) -> S (length fs) < limit ->
+  exists mws code caps fvs,
+    clo = MClo (length ps + 1) true code caps /\
+    xs = ps ++ [r] /\ ws = firstn (length ps) vs ++ [VList (skipn (length ps) vs)] /\
+    mws = firstn (length ps) mvs ++ [MList (skipn (length ps) mvs)] /\
+    vm_step limit (mkVM C pcC ((st0 ++ mvs) ++ [clo]) fs MG) =
+      SNext (mkVM code 0 (st0 ++ mws) (mkFrame (length st0) clo (S pcC) C :: fs) MG) /\
+    Forall2 (vrel tco) ws mws /\
+    R1 tco (bind xs ws r') (body_cenv xs fvs) mws caps.
+Proof. exact rest_entry. Qed.
 
 (* non-vacuity: a tail-recursive loop and a closure-returning program, both modes *)
 Example C01_example_loop :
   let I z := EConst (KInt z) in let V := EVar in let A f a := EApp (EVar f) a in
-  let loopd := ("loop", ELam ["i"; "acc"] (EIf (A "=" [V "i"; I 0%Z]) (V "acc")
+  let loopd := ("loop", ELam ["i"; "acc"] None (EIf (A "=" [V "i"; I 0%Z]) (V "acc")
                    (A "loop" [A "-" [V "i"; I 1%Z]; A "+" [V "acc"; V "i"]]))) in
   render_result (run_program 200 [loopd] (A "loop" [I 20%Z; I 0%Z])) = "OK I210"%string /\
   render_run (vm_program 100 true false 2000 [loopd] (A "loop" [I 20%Z; I 0%Z])) = "OK I210"%string /\
   render_run (vm_program 100 false false 2000 [loopd] (A "loop" [I 20%Z; I 0%Z])) = "OK I210"%string /\
   render_run (vm_program 15 false false 2000 [loopd] (A "loop" [I 20%Z; I 0%Z])) = "ERR Generic"%string /\
   render_run (vm_program 15 true true 2000 [loopd] (A "loop" [I 20%Z; I 0%Z])) = "OK I210"%string.
+Proof. vm_compute. repeat split. Qed.
+
+Example C01_example_rest :
+  let I z := EConst (KInt z) in let V := EVar in
+  (* ((lambda (a . r) r) 1 2 3)  and  ((lambda (a b . r) a)) with too few operands *)
+  render_result (run_program 50 [] (EApp (ELam ["a"] (Some "r") (V "r")) [I 1%Z; I 2%Z; I 3%Z])) = "OK (I2 I3)"%string /\
+  render_run (vm_program 100 true true 500 [] (EApp (ELam ["a"] (Some "r") (V "r")) [I 1%Z; I 2%Z; I 3%Z])) = "OK (I2 I3)"%string /\
+  render_run (vm_program 100 true false 500 [] (EApp (ELam ["a"; "b"] (Some "r") (V "a")) [I 1%Z])) = "ERR ArityMismatch"%string /\
+  render_result (run_program 50 [] (EApp (ELam ["a"; "b"] (Some "r") (V "a")) [I 1%Z])) = "ERR ArityMismatch"%string.
 Proof. vm_compute. repeat split. Qed.
